@@ -25,7 +25,10 @@ def main(path):
         if not cases:
             print('case %s is not in the corpus for seed %d' % (o['case'], seed))
             return 2
-        st, pr = tieb.run(o['cfg'], cases, seed, None, None, None, (o['case'],))
+        if o.get('scope') == 'no_std':
+            st, pr = tieb.run_nostd(o['cfg'], cases, seed, None, (o['case'],))
+        else:
+            st, pr = tieb.run(o['cfg'], cases, seed, None, None, None, (o['case'],), o.get('scope') == 'hostile')
         for p in pr:
             p.pop('values', None)
             print(json.dumps(p, indent=1))
